@@ -242,6 +242,12 @@ where
         self.context.metrics()
     }
 
+    /// Read-only snapshot of the collector bookkeeping for external verification harnesses.
+    #[cfg(gc_arena_verif)]
+    pub fn verif_heap_snapshot(&self, cap: usize) -> crate::verif::HeapSnap {
+        self.context.verif_snapshot(cap)
+    }
+
     #[inline]
     pub fn collection_phase(&self) -> CollectionPhase {
         match self.context.phase() {
